@@ -92,7 +92,27 @@ func c01Run(rc *simrt.RunCtx, faults bool) {
 			}
 		}
 	}
-	rc.Sample("N=%d %v chunk=%d msgs c2s=%d s2c=%d faults=%v", n, tk, chunk, mA, mB, faults)
+	// application behaviour: a reader that lags behind (so that more than a
+	// window of packets piles up before it calls Recv again), a reader with a
+	// receive timeout that it retries after, a writer with idle gaps
+	var lagPm, lagMax, gapPm int
+	var recvTO time.Duration
+	switch rc.Pick(4, "wl.reader") {
+	case 1:
+		lagPm, lagMax = 100, 40
+	case 2:
+		lagPm, lagMax = 30, 2000
+	case 3:
+		lagPm, lagMax = 500, 5
+	}
+	if rc.Pick(3, "wl.recvtimeout") == 0 {
+		recvTO = []time.Duration{time.Millisecond, 20 * time.Millisecond, 150 * time.Millisecond, time.Second}[rc.Pick(4, "wl.recvto")]
+	}
+	if rc.Pick(4, "wl.writergaps") == 0 {
+		gapPm = 50
+	}
+	rc.Knob("app", fmt.Sprintf("readerlag=%d/%dms recvtimeout=%v writergaps=%d", lagPm, lagMax, recvTO, gapPm))
+	rc.Sample("N=%d %v chunk=%d msgs c2s=%d s2c=%d faults=%v readerlag=%d/%dms recvtimeout=%v", n, tk, chunk, mA, mB, faults, lagPm, lagMax, recvTO)
 
 	done := make(chan string, 8)
 	delivered := [2]int{}
@@ -109,6 +129,9 @@ func c01Run(rc *simrt.RunCtx, faults bool) {
 					simrt.Note("%s Send(%d) error: %v", name, i, err)
 					return
 				}
+				if gapPm > 0 && simrt.Pm(gapPm, "wl.wgap") {
+					time.Sleep(time.Duration(1+simrt.Choose(3000, "wl.wgaplen")) * time.Millisecond)
+				}
 			}
 		}()
 	}
@@ -120,8 +143,23 @@ func c01Run(rc *simrt.RunCtx, faults bool) {
 			if err != nil || c == nil {
 				return
 			}
+			if recvTO > 0 {
+				c.SetRecvTimeout(recvTO)
+			}
+			timeouts := 0
 			for i := 0; i < len(sizes); i++ {
+				if lagPm > 0 && simrt.Pm(lagPm, "wl.rlag") {
+					time.Sleep(time.Duration(1+simrt.Choose(lagMax, "wl.rlaglen")) * time.Millisecond)
+				}
 				b, err := c.Recv()
+				if err == errRecvTimeout && timeouts < 20000 {
+					// nothing (or only a part of a message) arrived in
+					// time: the message must come out whole later
+					timeouts++
+					rc.Probe("c01.recv-timeout-retried")
+					i--
+					continue
+				}
 				if err != nil {
 					simrt.Note("%s Recv(%d) error: %v", name, i, err)
 					return
